@@ -322,6 +322,7 @@ func runXState(c *core.Ctx) []core.Obligation {
 			obs = append(obs, core.Ob("R-XSTATE", construct, c.Pos(fn.Pos()), core.FuncName(fn), core.Violated, why))
 		}
 	}
+	obs = append(obs, crosserStatePrivate(c)...)
 	return obs
 }
 
